@@ -136,8 +136,8 @@ class C05 : public Check
 public:
     const char *id() { return "C05"; }
     const char *opName(int k) { return xName(k); }
-    int quickRuns() { return 12000; }
-    int quickSeconds() { return 60; }
+    int quickRuns() { return 60000; }
+    int quickSeconds() { return 90; }
     int thoroughSeconds() { return 900; }
     const char *rule()
     {
